@@ -390,6 +390,7 @@ public:
     }
 };
 
+static long g_reusedStorage = 0;
 sim::CaseResult IoSim::run(const sim::Options &, const Json &plan)
 {
     sim::CaseResult res;
@@ -690,6 +691,13 @@ sim::CaseResult IoSim::run(const sim::Options &, const Json &plan)
             if (kind == "states")
             {
                 ob::StateStorage st(into);
+                // in two of five cases the storage object has been used before: load() replaces its contents
+                if (into == sp && !states.empty() && plan.geti("ompl_seed", 1) % 5 < 2)
+                {
+                    st.addState(states[states.size() - 1]);
+                    st.addState(states[0]);
+                    g_reusedStorage++;
+                }
                 st.load(is);
                 L.reported = g_capture.reports > before;
                 size_t m = st.size();
